@@ -165,6 +165,18 @@ package yubiattest
 
 //@ # distinct serials give distinct strings: the alphabet has 16 distinct characters
 //@ lemma mhchar_injective(a int, b int): (0 <= a && a < 16 && 0 <= b && b < 16 && mhchar(a) == mhchar(b)) ==> a == b
+//@ # lifted to the whole string, for each serial length: equal ModHex strings come from equal serial bytes
+//@ ghost func isByte(v int) bool = 0 <= v && v < 256
+//@ lemma modhex_injective_4(s bytes, o int, u bytes, p int): (isByte(s[o]) && isByte(s[o + 1]) && isByte(s[o + 2]) && isByte(s[o + 3]) &&
+//@   isByte(u[p]) && isByte(u[p + 1]) && isByte(u[p + 2]) && isByte(u[p + 3]) &&
+//@   mhAt(s, o, 4, 0) == mhAt(u, p, 4, 0) && mhAt(s, o, 4, 1) == mhAt(u, p, 4, 1) && mhAt(s, o, 4, 2) == mhAt(u, p, 4, 2) && mhAt(s, o, 4, 3) == mhAt(u, p, 4, 3) &&
+//@   mhAt(s, o, 4, 4) == mhAt(u, p, 4, 4) && mhAt(s, o, 4, 5) == mhAt(u, p, 4, 5) && mhAt(s, o, 4, 6) == mhAt(u, p, 4, 6) && mhAt(s, o, 4, 7) == mhAt(u, p, 4, 7)) ==>
+//@   (s[o] == u[p] && s[o + 1] == u[p + 1] && s[o + 2] == u[p + 2] && s[o + 3] == u[p + 3])
+//@ lemma modhex_injective_3(s bytes, o int, u bytes, p int): (isByte(s[o]) && isByte(s[o + 1]) && isByte(s[o + 2]) &&
+//@   isByte(u[p]) && isByte(u[p + 1]) && isByte(u[p + 2]) &&
+//@   mhAt(s, o, 3, 2) == mhAt(u, p, 3, 2) && mhAt(s, o, 3, 3) == mhAt(u, p, 3, 3) &&
+//@   mhAt(s, o, 3, 4) == mhAt(u, p, 3, 4) && mhAt(s, o, 3, 5) == mhAt(u, p, 3, 5) && mhAt(s, o, 3, 6) == mhAt(u, p, 3, 6) && mhAt(s, o, 3, 7) == mhAt(u, p, 3, 7)) ==>
+//@   (s[o] == u[p] && s[o + 1] == u[p + 1] && s[o + 2] == u[p + 2])
 
 //@ # ---------------------------------------------------------------- C16: the lenient certificate parser
 //@ # ParseCertificate itself is verified (one ASN.1 decode, trailing data rejected, then the field-by-field conversion);
